@@ -857,7 +857,7 @@ Section Filtered.
   Definition wf_argval_pos (v : argval) : Prop :=
     match v with
     | AVPrim p => wf_prim p /\ p <> PEmpty /\ p <> PBlank
-    | AVLambda ps body => Forall (fun x => is_word x = true) ps /\ wf_bexpr body
+    | AVLambda ps body => ps <> [] /\ Forall (fun x => is_word x = true) ps /\ wf_bexpr body
     end.
   Definition wf_argval_kw (v : argval) : Prop :=
     match v with
@@ -865,8 +865,9 @@ Section Filtered.
     | AVLambda ps body => (exists x, ps = [x] /\ is_word x = true) /\ wf_bexpr body
     end.
   (** Arguments [Filter.parse] can produce: a positional word is always a
-      path (never [empty]/[blank]); a keyword argument's lambda has exactly one
-      parameter (a parenthesised parameter list is not accepted there). *)
+      path (never [empty]/[blank]); a lambda has at least one parameter
+      ([() => e] is a syntax error); a keyword argument's lambda has exactly one
+      (a parenthesised parameter list is not accepted there). *)
   Definition wf_arg (a : arg) : Prop :=
     match a with
     | APos v => wf_argval_pos v
@@ -938,16 +939,13 @@ Section Filtered.
   Qed.
 
   Lemma parse_lambda_print ps body rest n :
-    wf_bexpr body -> nobin rest ->
+    ps <> [] -> wf_bexpr body -> nobin rest ->
     (2 * List.length (sargval (AVLambda ps body)) + 1 <= n)%nat ->
     parse_lambda n (sargval (AVLambda ps body) ++ rest) = Ok (AVLambda ps body, rest).
   Proof.
-    intros W NB Hn.
+    intros NE W NB Hn.
     destruct ps as [|x [|y r]].
-    - rewrite sargval_lambdaN in * by discriminate. cbn [map join app] in *.
-      cbn [parse_lambda]. cbn [List.length] in Hn.
-      destruct n; [lia|]. cbn [parse_params bind fst snd].
-      rewrite pbp_print_top; [reflexivity|exact W|exact NB|lia].
+    - congruence.
     - rewrite sargval_lambda1 in *. cbn [app parse_lambda word] in *. cbn [List.length] in Hn.
       rewrite pbp_print_top; [reflexivity|exact W|exact NB|lia].
     - rewrite sargval_lambdaN in * by discriminate.
@@ -978,11 +976,10 @@ Section Filtered.
       + destruct W as (W & NE & NBl). unfold sarg. cbn [print_arg print_argval].
         rewrite strip_prim. cbn [strip filter app].
         apply parse_args_prim; assumption.
-      + destruct W as [_ W]. change (sarg (APos (AVLambda ps body))) with (sargval (AVLambda ps body)) in *.
-        pose proof (parse_lambda_print ps body rest n W NB Hn) as L.
+      + destruct W as (NE & _ & W). change (sarg (APos (AVLambda ps body))) with (sargval (AVLambda ps body)) in *.
+        pose proof (parse_lambda_print ps body rest n NE W NB Hn) as L.
         destruct ps as [|x [|y r]].
-        * rewrite sargval_lambdaN in * by discriminate. cbn [map join app] in *.
-          cbn [parse_args]. rewrite L. reflexivity.
+        * congruence.
         * rewrite sargval_lambda1 in *. cbn [app word] in *.
           cbn [parse_args]. rewrite L. reflexivity.
         * rewrite sargval_lambdaN in * by discriminate. cbn [app] in *.
@@ -999,7 +996,7 @@ Section Filtered.
           destruct rest as [|[] ?]; cbn in Hr; try contradiction; reflexivity. }
         rewrite A. rewrite (prim_roundtrip printable p W). reflexivity.
       + destruct W as [(x & -> & _) W].
-        pose proof (parse_lambda_print [x] body rest n W NB) as L.
+        pose proof (parse_lambda_print [x] body rest n ltac:(discriminate) W NB) as L.
         rewrite sargval_lambda1 in *. cbn [app word List.length] in *.
         cbn [parse_args tl hd_error is_arrow].
         rewrite L by lia. reflexivity.
@@ -1743,6 +1740,13 @@ Definition ex_loop : loopexpr :=
 
 Example ex_loop_wf : wf_loop ex_loop.
 Proof. unfold ex_loop. solve_wf. Qed.
+
+(** [x | f: () => 1]: an arrow function without parameters is a syntax error
+    (LambdaExpression.parse), so [wf_arg] requires at least one. *)
+Example empty_lambda_rejected :
+  parse_filtered [TA (AWord (lit "x")); TPipe; TA (AWord (lit "f")); TColon; TLParen; TRParen; TArrow; TA (AInt 1)]
+  = LErr LiquidSyntaxError None.
+Proof. vm_compute. reflexivity. Qed.
 
 Example ex_string_wf : wf_str (lit "it's \ ${x}") /\ wf_str [9; 10; 27; 233; 128512].
 Proof. solve_wf. Qed.
